@@ -302,7 +302,7 @@ def compose_unit(vcls, param, w):
 OPS = ('insert', 'append', 'delitem', 'pop', 'setitem', 'delslice', 'setslice', 'setslice_ext', 'extend', 'iadd', 'clear', 'reverse')
 
 
-def units(tier, seed):
+def _units_body(tier, seed):
     out = []
     vs = fixed_vectors()
     special = ('TlsHandshakeHelloRandomBytes',)
@@ -321,6 +321,12 @@ def units(tier, seed):
                     'MutableSequence.remove (= del self[self.index(value)], a search loop plus __delitem__) is not under contract']
     from checks import foundation
     return list(out) + foundation.units(tier, seed)
+
+
+
+def units(tier, seed):
+    from checks import canary
+    return list(_units_body(tier, seed)) + [canary.vector_append_noop()]
 
 
 FINDING_REPLAYS = {}
